@@ -199,6 +199,20 @@ MUTANTS = [
     ("fixrevert_d11_keyword_call_on_cache_hit", [(UTIL, """            expression = args[0] if args else next(iter(kwargs.values()), None)
             parsing_logger.log(_CACHE_LOG_LEVEL, "The parsed tree for '%s' has been loaded from the cache", expression)""", """            parsing_logger.log(_CACHE_LOG_LEVEL, "The parsed tree for '%s' has been loaded from the cache", args[0])""")], ["C11", "C02"]),
     ("fixrevert_d12_deepcopy_recursion", [(UTIL, "        return _copy_tree(tree_result)\n", "        return copy.deepcopy(tree_result)\n")], ["C02"]),
+    ("fixrevert_d13_fulfilled_result_with_message", [(FCE, """    if result.format_constraint_fulfilled and result.error_message is not None:
+        # Only an unfulfilled result is explained. A text that a _fulfilled_ single format constraint carries is no error.
+        result = EvaluatedFormatConstraint(format_constraint_fulfilled=True, error_message=None)
+    return result
+""", """    return result
+""")], ["C08"]),
+    ("fixrevert_d14_default_message_written_into_user_object", [(FCEV, """                result = EvaluatedFormatConstraint(
+                    format_constraint_fulfilled=False, error_message=f"Condition [{condition_key}] has to be fulfilled."
+                )
+""", """                result.error_message = f"Condition [{condition_key}] has to be fulfilled."
+""")], ["C15"]),
+    ("fixrevert_d15_lenient_fromisoformat", [(TAG, """        if _DATETIME_WITH_OFFSET_PATTERN.fullmatch(entered_input) is None:
+            raise ValueError(f"Invalid isoformat string: '{entered_input}'")
+""", "")], ["C20"]),
     ("fixrevert_d7_931_midnight", [(TAG, "    if utc_offset == timedelta(0):", "    if utc_offset == timedelta(0) and date_time.time() == time(0, 0, 0):")], ["C20"]),
     ("fixrevert_d8_overflow", [(TAG, "    except OverflowError as overflow_error:", "    except ZeroDivisionError as overflow_error:")], ["C20"]),
     ("fixrevert_d4_soll_flag", [(VAL, """            tasks.append(
